@@ -28,9 +28,17 @@ Definition glue_C18 (k : string) (a o : list value) : option verdict :=
         Some (functional [VZ (scaled_ppm_from_freq (freq_from_scaled_ppm x))] o (C18_freq_ok x back))
     | _, _ => None end
   else if is k "units.drift" then
-    match a with
-    | [VZ drift_ns; VZ d] => Some (functional [VZ (sysclk_drift drift_ns d)] o true)
-    | _ => None end
+    match a, o with
+    | [VZ drift_ns; VZ d], [VZ D] =>
+        Some (functional [VZ (sysclk_drift drift_ns d)] o (C18_drift_ok drift_ns d D))
+    | _, _ => None end
+  else if is k "units.drift_add" then
+    (* args: drift_ns d1 d2; observed: Drift(d1), Drift(d2), Drift(d1 + d2) *)
+    match a, o with
+    | [VZ drift_ns; VZ d1; VZ d2], [VZ D1; VZ D2; VZ D12] =>
+        Some (functional [VZ (sysclk_drift drift_ns d1); VZ (sysclk_drift drift_ns d2); VZ (sysclk_drift drift_ns (d1 + d2))] o
+                (C18_drift_add_ok drift_ns d1 d2 D1 D2 D12))
+    | _, _ => None end
   else if is k "csptp.ts_of_time" then
     match a with
     | [VZ sec; VZ nsec] =>
